@@ -97,8 +97,19 @@ inline int pdu_to_id(const uint8_t *p, size_t n, const std::set<int> &bulk_hint)
 	if (k.empty()) return -1;
 	auto it = tab.find(k);
 	if (it != tab.end()) return it->second;
-	if (type == wire::IPV4_PREFIX && n == 20 && p[9] == 32 && p[10] == 32 && p[12] == 10 && p[13] == 9 && wire::get32(p + 16) == 7)
-		return 1000 + ((p[14] << 8) | p[15]);
+	if (type == wire::IPV4_PREFIX && n == 20 && p[9] == 32 && p[10] == 32 && p[12] == 10 && p[13] == 9 && wire::get32(p + 16) == 7 && ((p[14] << 8) | p[15]) < 1000)
+		return wire::BULK4 + ((p[14] << 8) | p[15]);
+	if (type == wire::IPV6_PREFIX && n == 32 && p[9] == 128 && p[10] == 128 && wire::get32(p + 28) == 7 && ((p[26] << 8) | p[27]) < 1000) {
+		wire::URec u = wire::urec_make(wire::BULK6 + ((p[26] << 8) | p[27]));
+		if (!memcmp(u.addr, p + 12, 16)) return wire::BULK6 + ((p[26] << 8) | p[27]);
+	}
+	if (type == wire::ROUTER_KEY && n == 123) {
+		uint32_t asn = wire::get32(p + 28);
+		if (asn >= 100000u && asn < 101000u) {
+			wire::URec u = wire::urec_make(wire::BULKK + (int)(asn - 100000u));
+			if (!memcmp(u.ski, p + 8, 20) && !memcmp(u.spki, p + 32, 91)) return wire::BULKK + (int)(asn - 100000u);
+		}
+	}
 	return -1;
 }
 
